@@ -411,6 +411,7 @@ class UniformMPS(MPS):
         obj.bc = 'infinite'
         obj.norm = hdf5_loader.get_attr(h5gr, 'norm')
         obj.valid_umps = hdf5_loader.get_attr(h5gr, 'valid_umps')
+        obj.diagonal_gauge = False  # the diagonal C (stored in `_S`) are not saved; recalculated if needed
         obj.form = [None] * len(obj._AR)
 
         obj.grouped = hdf5_loader.get_attr(h5gr, 'grouped')
